@@ -952,7 +952,8 @@ class Constant(Term):
         Returns:
              $\mu(x) = k$
         """
-        y = np.full_like(x, fill_value=self.value)
+        # not the type of x: an integer-typed x would truncate the constant
+        y = np.full_like(x, fill_value=self.value, dtype=settings.float_type)
         return y
 
     def parameters(self) -> str:
